@@ -185,8 +185,74 @@ fn probe(rep: &mut Report, what: &str, pair: (Vec<u8>, Vec<u8>)) -> (String, u12
 }
 
 pub fn run(rep: &mut Report) {
+    // ---- the families through both sides (small members): the model reads them like the real code
+    let small: Vec<(&str, (Vec<u8>, Vec<u8>))> = vec![
+        ("chain of 300 blocks", chain_pair(300)),
+        ("clique of 5 blocks on one line", clique_pair(5)),
+        ("ring of 6 blocks on one line", ring_pair(6)),
+    ];
+    let reqs: Vec<String> = small.iter().map(|(_, (g, d))| format!("c14.gcno.computeb 1 {} {}", hex(g), hex(d))).collect();
+    let answers = run_model(&reqs, &rep.workdir, "c14gcnodepth");
+    for (i, (what, (g, d))) in small.iter().enumerate() {
+        let out = outcome_2m(g.clone(), d.clone());
+        rep.case(&format!("gcnodepth tie {}", what), true);
+        // `show_results` sorts by the formatted key; one file only here
+        let imp = if out.starts_with("panic") { "panic".to_string() } else if out.starts_with("err") { "err".to_string() } else { out.trim_end().to_string() };
+        let m = if answers[i].starts_with("err") { "err".to_string() } else { answers[i].clone() };
+        rep.count(&format!("gcnodepth.tie.{}", imp.split(' ').next().unwrap_or("")));
+        if m != imp {
+            rep.disagreements_checked += 1;
+            rep.fail("disagreement", None, format!("Gcno::compute differs from computeBytes on the {}", what),
+                json!({"op": "case", "kind": "gcno2m", "what": what, "data_hex": hex(g), "aux_hex": hex(d), "impl": out, "model": answers[i]}));
+        }
+    }
+    // ---- recursion depth: a chain of blocks, on a thread with the 2 MiB stack of a consumer thread
+    let (o, ms, size) = probe(rep, "chain of 2000 blocks (control)", chain_pair(2000));
+    rep.case("gcnodepth chain control", true);
+    rep.count(&format!("gcnodepth.chain2000.{}", o.split(' ').next().unwrap_or("none")));
+    if !o.starts_with("ok") {
+        rep.fail("oracle", None, format!("a chain of 2000 blocks ({} bytes) is not read: {} after {} ms", size, o, ms), json!({"op": "gcnodepth", "family": "chain", "n": 2000}));
+    }
+    let n = 20_000u32;
+    let pair = chain_pair(n);
+    let case = json!({"op": "case", "kind": "gcno2m", "what": format!("chain of {} blocks", n), "data_hex": hex(&pair.0), "aux_hex": hex(&pair.1)});
+    let (o, ms, size) = probe(rep, "chain", pair);
+    rep.case("gcnodepth chain", true);
+    rep.count(&format!("gcnodepth.chain20000.{}", o.split(' ').next().unwrap_or("none")));
+    if !(o.starts_with("ok") || o.starts_with("err")) {
+        rep.fail(
+            "oracle",
+            Some("C14-gcno-recursion-depth-stack-overflow"),
+            format!("Gcno::compute on a thread with a 2 MiB stack dies on a function whose {} blocks form a chain ({} bytes of gcno+gcda): {} (propagate_counts recurses once per block)", n, size, if o.is_empty() { "not run" } else { &o }),
+            case,
+        );
+    } else if ms > 2_000 {
+        rep.fail("oracle", None, format!("reading {} bytes took {} ms", size, ms), case);
+    }
+    // ---- cycle search: one line shared by mutually connected blocks
+    let (o, ms, size) = probe(rep, "clique of 8 blocks (control)", clique_pair(8));
+    rep.case("gcnodepth clique control", true);
+    rep.count_n("gcnodepth.clique8.ms", ms as u64);
+    if !o.starts_with("ok") || ms as usize > 100 + size / 10 {
+        rep.fail("oracle", None, format!("a clique of 8 blocks ({} bytes): {} after {} ms", size, o, ms), json!({"op": "gcnodepth", "family": "clique", "k": 8}));
+    }
+    let k = 11u32;
+    let pair = clique_pair(k);
+    let case = json!({"op": "case", "kind": "gcno2m", "what": format!("line shared by {} mutually connected blocks", k), "data_hex": hex(&pair.0), "aux_hex": hex(&pair.1)});
+    let (o, ms, size) = probe(rep, "clique", pair);
+    rep.case("gcnodepth clique", true);
+    rep.count_n("gcnodepth.clique11.ms", ms as u64);
+    // a modest multiple of the input size: 100 ms + 1 ms per 10 bytes
+    if !(o.starts_with("ok") || o.starts_with("err")) || ms as usize > 100 + size / 10 {
+        rep.fail(
+            "oracle",
+            Some("C14-gcno-cycle-search-exponential"),
+            format!("Gcno::compute needs {} ms ({}) for {} bytes of gcno+gcda: one line shared by {} mutually connected blocks, the cycle search enumerates every elementary circuit ({} allowed: 100 ms + 1 ms per 10 bytes)", ms, o.chars().take(20).collect::<String>(), size, k, 100 + size / 10),
+            case,
+        );
+    }
     if let Ok(dir) = std::env::var("C14_DUMP") {
-        for (name, pair) in [("chain20000", chain_pair(20_000)), ("chain17000", chain_pair(17_000)), ("clique12", clique_pair(12)), ("clique11", clique_pair(11)), ("ring3000", ring_pair(3000))] {
+        for (name, pair) in [("chain20000", chain_pair(20_000)), ("clique12", clique_pair(12)), ("clique11", clique_pair(11)), ("ring3000", ring_pair(3000))] {
             let d = std::path::Path::new(&dir).join(name);
             std::fs::create_dir_all(&d).unwrap();
             std::fs::write(d.join("x.gcno"), &pair.0).unwrap();
@@ -194,13 +260,17 @@ pub fn run(rep: &mut Report) {
         }
     }
     if std::env::var("C14_PROBE").is_ok() {
-        for n in [15_500u32, 16_000, 16_500, 17_000, 17_500, 18_000, 19_000] {
+        for n in [15_000u32, 17_000, 18_000, 19_000, 20_000, 100_000, 1_000_000] {
             let (o, ms, size) = probe(rep, "chain", chain_pair(n));
             eprintln!("PROBE chain n={} bytes={} -> {} in {} ms", n, size, o.chars().take(40).collect::<String>(), ms);
         }
-        for n in [1500u32, 2000, 2500] {
+        for n in [1000u32, 2000, 2500, 3000, 10_000] {
             let (o, ms, size) = probe(rep, "ring", ring_pair(n));
             eprintln!("PROBE ring n={} bytes={} -> {} in {} ms", n, size, o.chars().take(40).collect::<String>(), ms);
+        }
+        for k in [8u32, 9, 10, 11, 12] {
+            let (o, ms, size) = probe(rep, "clique", clique_pair(k));
+            eprintln!("PROBE clique k={} bytes={} -> {} in {} ms", k, size, o.chars().take(40).collect::<String>(), ms);
         }
     }
 }
